@@ -416,11 +416,13 @@ class BuiltinsMixin:
                 r = INT(I.fresh('count', node))
             if name == 'sum':
                 self._mark_sum(r, a, self.kwarg(pos, kw, 0, 'axis'))
+            self.red_kind(r, a, name)
             return r
         if name == 'mean':
             r = self.reduce(a, self.kwarg(pos, kw, 0, 'axis'), node, dt='f')
             if r.k == 'int':
                 r = FLOAT(taint=a.taint)
+            self.red_kind(r, a, name)
             return r
         if name in ('any', 'all'):
             if a.dt not in ('b', None) and a.idx == 'where':
